@@ -39,6 +39,7 @@ var c08Shapes = []string{
 	"[1?1,1]", "v=0; [v?1,1]", "func t2(a, b) { a + b }; t2(1 ? 2, 3)", "{'a': 1 ? 2, 'b': 3}", "[0 ? 1, 1 ? 2, 3]", "[1 ? 2, 3][0:1]", "`{[1?1,1]}`", "&cv = [0 ? 1, 2]; cv",
 	"c=1; while c { func f() { break }; c = 0 }; f()", "c=2; while c { &x = 1; func f() { continue }; c = c - 1 }; f(); c", "i=0; while i<2 { &cv = i ? 1 : 2; func g() { if 1 { break }; 3 }; i=i+1 }; g() + cv", "c=1; while c { func f() { i=0; while i<5 { i=i+1; if i==2 { break } }; i }; c = 0 }; f()",
 	"(1 ? 1 : 2)d6", "c = 1; (c ? 3 : 2)d6k1", "(1 ? 2 : true)d4", "2d((1 ? 1 : 2)d6)", "func f(c) { (c ? 1 : 2)d6 }; f(1) + f(0)", "(0 ? 1 : 2)d6", "c = 0; (c ? 2 : 3)d(c ? 4 : 6)", "(1 ? 1 : 2)a8", "(1 ? 2 : 3)c5", "b(1 ? 1 : 2)", "(1 || 2)d6", "(0 ?? 2)d6q1", "(1 ? 1 : 2)d6优势", "&cv = (1 ? 1 : 2)d6; cv",
+	"c = 0; c ? `a{;}b` : 2", "if 0 { `x{% ; %}y` }; 3", "i=0; while i<2 { `{;}`; i=i+1 }; i", "func tf(c) { return c ? `a{;}b` : 2 }; tf(0) + tf(1)", "c = 1; c ? `{% // only a comment\n %}` : 5", "0 || `p{;}q`", "c = 0; if c { `{;}{;}` } else if 1 { 7 } else { 8 }", "`{;}` + `{% ; %}` + `{1}`", "&cv = 0 ? `m{;}n` : 4; cv",
 	// definitions inside bodies, several per body, and at unusual positions
 	"func f(x) { p=1; q=2; &a=5; &b = x ? 1+2+3+4+5+6+7+8 : 0; a + b }; f(0) + f(1)", "func f() { [&a = 1, &b = 0 ? 3 : 4] }; f()", "func f() { func g1() { 1 ? 2 : 3 }; func g2(y) { if y { return 4 }; 5 }; g1() + g2(0) + g2(1) }; f()",
 	"&outer = (1 ? 2 : 3) + 1; func f() { &i1 = 0 || 7; &i2 = 1 && 8; func h() { while 0 { } ; 9 }; i1 + i2 + h() }; f() + outer", "func f(x) { if x { &m = x ? 1 : 2; &n = x ?? 3 ? 4 : 5; return m + n }; func z() { 0 ? 1, 1 ? 2 }; z() }; f(0); f(1)",
@@ -170,6 +171,18 @@ func (mo *c08Monitor) step(s *ds.VerifStep) bool {
 		off, ok := s.Code.Value.(ds.IntType)
 		if !ok {
 			mo.fail("jump-unpatched@"+op.Name, "instruction %d (%s) has no offset: the jump was never patched", s.OpIndex, op.Name)
+			return true
+		}
+		if off == 0 && op.Name != "jmp" {
+			// a conditional jump to the next instruction decides nothing: it still holds the placeholder it
+			// was emitted with (every branch the compiler emits contains at least one instruction)
+			sig := "jump-unpatched@" + op.Name
+			if data, n, ok := ds.VerifParsedInput(s.Ctx); ok && n < len(strings.TrimRight(string(data), " \t\r\n")) && (strings.Contains(string(data), "||") || strings.Contains(string(data), "&&")) {
+				// the parser stopped before the end of a text using '||' / '&&': the open finding's shape
+				// (code of an abandoned alternative stays behind), kept apart from every other cause
+				sig = "jump-unpatched-after-abandoned-logic@" + op.Name
+			}
+			mo.fail(sig, "instruction %d (%s) has offset 0, the placeholder it was emitted with: the jump was never patched", s.OpIndex, op.Name)
 			return true
 		}
 		tgt := s.OpIndex + int(off) + 1
